@@ -155,6 +155,8 @@ PROPS = {
                 "@performance targets differ); @accrue-annotated transactions are generated and expanded by Model/Accrual.",
         "rule": "lifecycle journals with negative/zero/trailing-zero/many-decimal amounts, @performance() with 0..n targets, multi-balance assertions followed by further assertions, several "
                 "assertions per day, Unicode names, multi-line descriptions, a twelfth with a lifecycle mutation (rejected journals must be rejected by the model too). "
+                "Stream sizes: the same journals with wide fields (account names of 30-300 runes - deep, long segments, letters/digits of 1-4 bytes -, commodity names of 8-40 runes, "
+                "amounts of 8-40 characters, lengths clustered around powers of two and typical caps), same comparisons and monitors; class = (outcome, longest account / commodity / amount bucket). "
                 "class = (outcome, feature signature, size bucket).",
         "assumptions": [],
     },
